@@ -124,6 +124,20 @@ def n_reflections(ops) -> int:
     return sum(o["op"] == "S" for o in ops)
 
 
+def scale_ops(ops, unit: float):
+    """the same motions in the length unit of the mesh (translations and centres are lengths)"""
+    if unit == 1.0:
+        return ops
+    out = []
+    for o in ops:
+        o = dict(o)
+        for k in ("v", "c"):
+            if k in o:
+                o[k] = [float(x) * unit for x in o[k]]
+        out.append(o)
+    return out
+
+
 def motion_scale(ops) -> float:
     s = 0.0
     for o in ops:
